@@ -821,7 +821,7 @@ func elaborate(repo string, ps *pkgSpec) (string, error) {
 		ps.name = pkgName
 	}
 	var body strings.Builder
-	imports := map[string]string{}
+	imports := map[string]string{"reflect\x00": ""}
 	for _, im := range ps.imports {
 		im = strings.TrimSpace(im)
 		name := ""
@@ -829,7 +829,7 @@ func elaborate(repo string, ps *pkgSpec) (string, error) {
 			name, im = im[:i], strings.TrimSpace(im[i+1:])
 		}
 		p, _ := strconv.Unquote(im)
-		imports[p] = name
+		imports[p+"\x00"+name] = name
 	}
 	body.WriteString(`
 func verif_forall(lo, hi int, f func(int) bool) bool {
@@ -870,12 +870,12 @@ func verif_arrayof[T any](s []T) any { return nil }
 
 // verif_sameelems(a, b): a and b have the same length and the same elements in
 // the same order.
-func verif_sameelems[T comparable](a, b []T) bool {
+func verif_sameelems[T any](a, b []T) bool {
 	if len(a) != len(b) {
 		return false
 	}
 	for i := range a {
-		if a[i] != b[i] {
+		if !reflect.DeepEqual(a[i], b[i]) {
 			return false
 		}
 	}
@@ -900,6 +900,8 @@ var _ = verif_fresh
 		body.WriteString("\n")
 	}
 	for _, c := range ps.contracts {
+		c.Def = nil
+		c.ParamNames, c.ResNames = nil, nil
 		var plist string
 		var rlist string
 		if c.IsLemma {
@@ -919,8 +921,8 @@ var _ = verif_fresh
 				return "", fmt.Errorf("%s/%s line %d: function %s not found in package", ps.dir, contractFile, c.Line, c.Key)
 			}
 			for p, n := range sig.imports {
-				if _, ok := imports[p]; !ok {
-					imports[p] = n
+				if _, ok := imports[p+"\x00"+n]; !ok {
+					imports[p+"\x00"+n] = n
 				}
 			}
 			var ps2 []string
@@ -1045,8 +1047,13 @@ var _ = verif_fresh
 	} else {
 		return "", fmt.Errorf("%s/%s: elaborated code does not parse: %v", ps.dir, contractFile, err)
 	}
-	for _, p := range paths {
-		name := imports[p]
+	emitted := map[string]bool{}
+	for _, pk := range paths {
+		name := imports[pk]
+		p := pk
+		if i := strings.IndexByte(pk, 0); i >= 0 {
+			p = pk[:i]
+		}
 		local := name
 		if local == "" {
 			local = filepath.Base(p)
@@ -1058,9 +1065,10 @@ var _ = verif_fresh
 		if local == "_" || local == "." {
 			continue
 		}
-		if !unresolved[local] {
+		if !unresolved[local] || emitted[local] {
 			continue
 		}
+		emitted[local] = true
 		if name != "" {
 			fmt.Fprintf(&hdr, "\t%s %q\n", name, p)
 		} else {
